@@ -204,6 +204,9 @@ def import_tokens(x):
     if m:
         mt = []
         def paren():
+            if x.get("supports_variant", 0) == 1:
+                # a dotted value in a media feature is not a class selector
+                return [T("(", None, "(", ctx="prelude", ws=True), ident("foo", ctx="prelude"), simple(":", ctx="prelude"), ident("a", ctx="prelude", ws=True), delim(".", ctx="prelude", wsmean="mustnot"), ident("b", ctx="prelude", cls=True, wsmean="mustnot"), simple(")", ctx="prelude")]
             return [T("(", None, "(", ctx="prelude", ws=True), ident("min-width", ctx="prelude"), simple(":", ctx="prelude"), T("dim", None, "10px", num=10.0, int=10, unit="px", ctx="prelude", ws=True), simple(")", ctx="prelude")]
 
         def word(w, must=False):
